@@ -279,7 +279,10 @@ def rstep (q : Quirks) (cfgs : Nat → Cfg) (w : RWorld) (c : Nat) (op : Op) : R
   | .set k v =>
     if okVal cfg.isList v then
       let w1 := srvDel w (pk cfg.pre k)
-      if q.emptyAbsent && isEmptyVal v then (w1, .done) else (srvPut w1 (pk cfg.pre k) v, .done)
+      if q.emptyAbsent && isEmptyVal v then (w1, .done) else
+      -- pottery's constructor checks EXISTS (a read on this connection) before it populates the key
+      let w2 := setCl w1 c (remember (pk cfg.pre k) (w1.cl c))
+      (srvPut w2 (pk cfg.pre k) v, .done)
     else (w, .typeError)
   | .upd k f v =>
     if cfg.isList then (w, .typeError) else
